@@ -212,9 +212,76 @@ let run_ownmsg (t : toks) : string =
   ^ " IDENT " ^ string_of_int (count HInputRef o.mo_ident) ^ "/" ^ string_of_int (count HHeap o.mo_ident)
   ^ " RETAIN " ^ string_of_int (List.length o.mo_retained) ^ " VREF " ^ string_of_int vref
 
+let rec int_of_nat (n : nat) : int = match n with O -> 0 | S m -> 1 + int_of_nat m
+
+(* C09, memory (GenAlloc.v): the ghost allocation counter of the plain templates and, when the type has a certificate of
+   bounded weight (the class of C09_gen_alloc), the explicit constants of the bound  alloc <= a * |input| + b.
+   The certificate is computed here (glue: least weights by iteration) and VALIDATED by the extracted alloc_class. *)
+let alloc_cert : (bool * bool * string, (int * z) list option) Hashtbl.t = Hashtbl.create 16
+let certificate md kb tyname ty =
+  let key = ((md = MSync), kb, tyname) in
+  match Hashtbl.find_opt alloc_cert key with
+  | Some c -> c
+  | None ->
+    let n = List.length !schema in
+    let w = Array.make n None in      (* None: not reached yet *)
+    let rec refs (t : ty) = match t with
+      | TyList a | TySet a -> refs a | TyMap (a, b) -> refs a @ refs b
+      | TyRef k -> [int_of_nat k] | _ -> [] in
+    let members k = match List.nth_opt !schema k with
+      | Some (DStruct (fs, _, _)) -> List.map (fun f -> f.f_ty) fs
+      | Some (DUnion (vs, _, _)) -> List.map snd vs
+      | Some (DTypedef t) -> [t]
+      | _ -> [] in
+    let rec reach k = if k < n && w.(k) = None then begin
+        w.(k) <- Some (match List.nth_opt !schema k with
+            | Some (DStruct _) | Some (DUnion _) -> frame_cost md kb !schema (nat_of_int k)
+            | _ -> Z0);
+        List.iter (fun t -> List.iter reach (refs t)) (members k) end in
+    List.iter reach (refs ty);
+    let wl () = List.concat (List.mapi (fun k o -> match o with Some z -> [(nat_of_int k, z)] | None -> []) (Array.to_list w)) in
+    let ok = ref true in
+    (try
+       for _round = 0 to n + 1 do
+         let cur = wl () in
+         Array.iteri (fun k o -> match o with
+             | None -> ()
+             | Some z ->
+               List.iter (fun t -> match gw md kb !schema cur t with
+                   | None -> ok := false; raise Exit
+                   | Some g -> (match w.(k) with Some z' -> w.(k) <- Some (Z.max z' g) | None -> ())) (members k);
+               ignore z) w
+       done
+     with Exit -> ());
+    let cert = wl () in
+    let res = if !ok && alloc_class md kb !schema cert ty then Some (List.map (fun (k, z) -> (int_of_nat k, z)) cert) else None in
+    Hashtbl.replace alloc_cert key res; res
+
+let run_alloc (t : toks) : string =
+  let cfg = next t in
+  let tyname = next t in
+  let ty = ty_of_name tyname in
+  let p = pk_of_string (next t) in
+  let mode = next t in
+  let is_async = String.length mode >= 5 && String.sub mode 0 5 = "async" in
+  let bytes = bytes_of_hex (next t) in
+  let kb = keep_cfg cfg in
+  let md = if is_async then MAsync else MSync in
+  (* the sync templates of keep_unknown_fields builds have their own decoder (retained chunks); async has no retention *)
+  let (r, a) = if kb && not is_async then alloc_decode_keep_top !schema p ty bytes
+    else alloc_decode_top md kb !schema p ty bytes in
+  let k = (match r with Ok _ -> "ok" | Err e -> "err " ^ err_class e | Panic s -> "panic " ^ string_of_site s) in
+  let cls = (match certificate md kb tyname ty with
+      | None -> " CLASS 0"
+      | Some c ->
+        let cert = List.map (fun (k, z) -> (nat_of_int k, z)) c in
+        " CLASS 1 A " ^ string_of_z (alloc_a md kb !schema cert ty) ^ " B " ^ string_of_z (Z.add (alloc_b md kb !schema cert ty) (top_const md))) in
+  k ^ " ALLOC " ^ string_of_z a ^ cls
+
 let run_case (t : toks) : string =
   let op = next t in
   if op = "ownmsg" then run_ownmsg t else
+  if op = "alloc" then run_alloc t else
   let cfg = next t in
   let ty = ty_of_name (next t) in
   let p = pk_of_string (next t) in
